@@ -96,8 +96,28 @@ def ev_end(seq, e):
     return Fraction(0)
 
 
-def expected(seq, i, evs):
+def edge_of(seq, edges, b, ch, which):
+    """edge value (0 = first, 1 = last) of block b on channel ch: what the caller added there (edges table), or what the
+    store decodes to when the block came from a file"""
+    if b in edges:
+        return edges[b].get(ch, (Fraction(0), Fraction(0)))[which]
+    g = getattr(seq.get_block(b), 'g' + ch)
+    if g is None or g.type != 'grad':
+        return Fraction(0)
+    return F(g.first if which == 0 else g.last)
+
+
+def edges_of_events(evs):
+    out = {}
+    for e in evs:
+        if getattr(e, 'type', None) == 'grad':
+            out[e.channel] = (F(e.first), F(e.last))
+    return out
+
+
+def expected(seq, i, evs, edges=None):
     """independent evaluation of the property's rules; returns None (accept) or the violated rule"""
+    edges = edges if edges is not None else {}
     step = F(seq.system.max_slew) * F(seq.system.grad_raster_time)
     eps = Fraction(1, 10 ** 9)
     chans = {}
@@ -120,15 +140,11 @@ def expected(seq, i, evs):
         if abs(first) > step and st > eps:
             return 'delaynz'
         if ids:
-            pl = Fraction(0)
-            if prev is not None:
-                g = getattr(seq.get_block(prev), 'g' + ch)
-                pl = F(g.last) if (g is not None and g.type == 'grad') else Fraction(0)
+            pl = edge_of(seq, edges, prev, ch, 1) if prev is not None else Fraction(0)
             if abs(pl - first) > step:
                 return 'connect'
             if nxt is not None:
-                g = getattr(seq.get_block(nxt), 'g' + ch)
-                nf = F(g.first) if (g is not None and g.type == 'grad') else Fraction(0)
+                nf = edge_of(seq, edges, nxt, ch, 0)
                 if abs(nf - last) > step:
                     return 'connect'
         elif abs(first) > step:
@@ -166,9 +182,53 @@ def gen_history(rng, tier):
     tw = H.Twin(system)
     prev_last = [0.0, 0.0, 0.0]
     kinds, diffs = [], []
+    edges = {}            # block id -> channel -> (first, last) of the gradient the caller added there
     for _ in range(n_ops):
         ids = list(tw.on.block_events.keys())
         r = rng.random()
+        special = rng.random()
+        if ids and special < 0.05:
+            # write + read of the sequence's own file: the store (and the edge values the reader reconstructs) replace
+            # what was built; the history continues on the loaded object
+            tw.write_read(do_read=True)
+            kinds.append('read')
+            edges = {}
+            ids2 = list(tw.on.block_events.keys())
+            if ids2:
+                ev = tw.on.block_events[ids2[-1]]
+                gl = tw.on.grad_library
+                prev_last = [float(gl.data[ev[2 + c]][5]) if ev[2 + c] and gl.type.get(ev[2 + c]) == 'g' and len(gl.data[ev[2 + c]]) > 5
+                             else 0.0 for c in range(3)]
+            continue
+        if ids and special < 0.08:
+            # another system object is assigned: the slew-step threshold must follow it
+            other = H.mk_system(rng, 1)
+            for s_ in (tw.on, tw.off):
+                s_.system = other
+            tw._record('system', 'load ' + sm.core_tokens(tw.on), [('ok', None), ('ok', None)])
+            kinds.append('system')
+            continue
+        if ids and special < 0.11:
+            # flip one axis of everything stored so far (library rows rewritten in place); what the caller "added" is
+            # now the negated events
+            ax = rng.choice('xyz')
+            res = tw._both(lambda s_: s_.flip_grad_axis(ax))
+            if res[0][0] != 'ok' or res[1][0] != 'ok':
+                # refused (an id shared between axes): nothing was changed, nothing to replay on the model
+                kinds.append('flip:raised')
+                if res[0][0] != res[1][0]:
+                    diffs.append({'op': len(kinds) - 1, 'kind': 'flip', 'expected': 'same outcome with cache on and off',
+                                  'got': [res[0][0], res[1][0]], 'index': 0, 'events': []})
+                continue
+            tw._record('flip', 'load ' + sm.core_tokens(tw.on), res)
+            kinds.append('flip')
+            if True:
+                for b in edges:
+                    if ax in edges[b]:
+                        f, l = edges[b][ax]
+                        edges[b][ax] = (-f, -l)
+                prev_last['xyz'.index(ax)] = -prev_last['xyz'.index(ax)]
+            continue
         if r < 0.62 or not ids:
             evs = gen_block(rng, pool, prev_last)
             i = tw.on.next_free_block_ID
@@ -191,7 +251,7 @@ def gen_history(rng, tier):
         if rng.random() < 0.2:
             evs = grads_by_id(tw, evs)
         try:
-            exp = expected(tw.off, i, evs)
+            exp = expected(tw.off, i, evs, edges)
         except Exception as e:  # noqa: BLE001
             exp = 'oracle-error:%r' % (e,)
         rec = tw.add(evs) if kind == 'add' else tw.set(i, evs)
@@ -204,6 +264,7 @@ def gen_history(rng, tier):
                 diffs.append({'op': len(kinds) - 1, 'kind': kind, 'index': i, 'expected': exp or 'accept', 'got': got or 'accept',
                               'events': [brief(e) for e in evs]})
         if got is None:
+            edges[i] = edges_of_events(evs)
             last_id = list(tw.on.block_events.keys())[-1]
             if last_id == i:
                 ev = tw.on.block_events[i]
